@@ -396,7 +396,7 @@ class Gen:
     def create(self):
         r = self.r
         rt = assemble([("push", r.choice([0, 7])), "PUSH0", "SSTORE", "STOP"]) if r.random() < 0.5 else assemble(["CALLER", "PUSH0", "MSTORE", ("push", 32), "PUSH0", "RETURN"])
-        mode = r.choice(["ok", "ok", "revert", "invalid", "ctx", "ctx", "revert_data", "revert_data"])
+        mode = r.choice(["ok", "ok", "revert", "invalid", "ctx", "ctx", "revert_data", "revert_data", "revert_data"])
         if mode == "ctx":
             # the constructor looks at its own context: calldata is EMPTY in a creation frame (copy, load, size),
             # the deployed code records what it saw
@@ -419,9 +419,9 @@ class Gen:
         items += [("push", n), ("push", 256), ("push", r.choice([0, 0, 1])), "CREATE", ("push", 192), "MSTORE"]
         # what the creator sees in its returndata buffer afterwards (empty after a success, the revert data after a revert)
         c = r.random()
-        if c < 0.4:
+        if c < 0.45:
             items += ["RETURNDATASIZE", ("push", 160), "MSTORE"]
-        elif c < 0.7:
+        elif c < 0.9:
             items += ["RETURNDATASIZE", "PUSH0", ("push", 128), "RETURNDATACOPY"]
         return items
 
